@@ -101,6 +101,12 @@ func c11Script(r *hx.Rand, n int, out *hx.Out, _ []string) {
 		}
 		var sb strings.Builder
 		sb.WriteString("<!DOCTYPE html><html><head><title>T</title>")
+		location := c10Base
+		if rr.Chance(1, 3) {
+			// the document sits elsewhere; a base element gives the base the scripts were written against
+			location = "http://example.org/elsewhere/deep/page.html"
+			sb.WriteString("<base href=\"" + hx.Pick(rr, []string{c10Base, "../../dir/doc", "/dir/doc#top"}) + "\">")
+		}
 		if rr.Chance(1, 4) {
 			sb.WriteString("<script>var x = {\"@id\": \"http://not.data/\"};</script>")
 		}
@@ -132,7 +138,7 @@ func c11Script(r *hx.Rand, n int, out *hx.Out, _ []string) {
 		}
 		sb.WriteString("</body></html>")
 		doc := sb.String()
-		res := zooRun("htmljsonld", []byte(doc), zooOpts{base: c10Base, offsets: rr.Chance(1, 4)})
+		res := zooRun("htmljsonld", []byte(doc), zooOpts{base: location, offsets: rr.Chance(1, 4)})
 		impl, oracle := "!doc", ""
 		switch res.verdict {
 		case "ok":
@@ -154,7 +160,7 @@ func c11Script(r *hx.Rand, n int, out *hx.Out, _ []string) {
 			sig = "C11_SCRIPT_TYPE_" + strings.ToUpper(strings.ReplaceAll(variant, "-", "_"))
 		}
 		out.Emit(hx.Case{Kind: "K/C11/script/iso", Line: line, Impl: impl, Class: cls, NonTri: len(want) >= 2, Oracle: oracle, Sig: sig, Spec: true,
-			Desc: fmt.Sprintf("location=%q features=%v document: %s", c10Base, feats, doc)})
+			Desc: fmt.Sprintf("location=%q features=%v document: %s", location, feats, doc)})
 	}
 }
 
